@@ -41,7 +41,8 @@ Stable API
     a deletion or with an insertion.
 ``sample(copy, contig, read_len, depth, rng, ...) -> [Read]``
     The same number of reads with uniformly random starts (sampling noise).
-``noise(reads_or_interval..., n, rng, ...)``: see `noise_reads` -- low-quality junk reads.
+``noise_reads(contig, start, end, n, read_len, rng, prefix="n", mapq=(0, 9), baseq=(2, 9), mismatch=0.2) -> [Read]``
+    `n` junk reads inside [start, end): random mismatches, low mapping and base qualities.
 ``pair_names(reads, gap)``: give mates (reads `gap` apart in the list) one name and proper flags.
 ``Read(name, start, cigar, seq, qual, mapq, flag, tags)``: `cigar` = list of (op, len) in pysam
     numbering (0 M, 1 I, 2 D, 4 S, 5 H, 7 =, 8 X); `seq`/`qual` may be None.
@@ -61,7 +62,21 @@ Stable API
     match the reference; SNP, MNP, deletion, insertion, left/right fusion, whole-gene deletion)
     used until/alongside harness/gen_db.py.  ``load_gene(yaml_text_or_path, genome, name=None)``.
 
-Self-test: ``python -m harness.gen_reads --selftest``.
+``allele_variants(gene, major) -> [(pos, op)]``: loaded variants (functional + first minor's neutral) of a major allele.
+
+Notes for users
+---------------
+* `read_len` must be a multiple of `depth` (tiling step = read_len // depth).  The gene must lie at >= ~1,100 on its
+  contig (aldy pads fetch regions by 500 / 1000) -- true for toy_yaml and gen_db genes.
+* The whole-gene deletion never appears among aldy's major alleles nor in `CNSolution.solution`: a planted
+  ["1", <deletion>] comes back as majors ["1"], structure {"1": 1}, diplotype "*1 / *<deletion>".
+* aldy can never observe a multi-base substitution whose op repeats a letter (`TAA>CAC`: the "A>A" position is not a
+  mismatch) nor a NEUTRAL multi-base substitution (only functional ones are merged, known finding C06): planted alleles
+  defined by such variants are not recoverable; this is aldy, not the simulator.
+* Works unchanged on harness/gen_db.py genes: `gen_db.load(path, build)`, `contig_len=gen_db.contig_length(db, build)`.
+
+Self-test: ``python -m harness.gen_reads --selftest`` (both strands/builds of toy_yaml: self-profile == 2.0 in every
+region; planted SNP / MNP / deletion / insertion alleles, extra weak copy, whole-gene deletion, left fusion recovered).
 """
 import os
 import random
